@@ -80,6 +80,16 @@ def build(kind, seed):
         spec["dataset"]["d1"] = {"megacomplex": ["m1", "m2", "m3", "m4", "m5"], "megacomplex_scale": ["ms1", "ms2", "ms3", "ms4", "ms5"], "scale": "dsc", "irf": "i1"}
         pl += [["f1", 2.0], ["k4", 1.7], ["k5", 0.02], ["c", 0.3], ["w", 0.15], ["dsc", 1.4, {"vary": False}],
                ["ms1", 1.0, {"vary": False}], ["ms2", 0.6], ["ms3", 1.9], ["ms4", 0.3], ["ms5", 2.5]]
+    elif kind == "split_decay":
+        # two general decay megacomplexes over disjoint compartments of ONE initial concentration (compartment names used
+        # by no other kind: whatever the process has seen before, these are new to it)
+        t = np.linspace(0.0, 30.0, 80)
+        spec["megacomplex"]["m1"] = {"type": "decay", "k_matrix": ["km1"]}
+        spec["megacomplex"]["m2"] = {"type": "decay", "k_matrix": ["km2"]}
+        spec["k_matrix"] = {"km1": {"matrix": {("u2", "u1"): "k1", ("u2", "u2"): "k2"}}, "km2": {"matrix": {("u4", "u3"): "k3", ("u4", "u4"): "k4"}}}
+        spec["initial_concentration"] = {"j": {"compartments": ["u1", "u2", "u3", "u4"], "parameters": ["j1", "j0", "j3", "j0"]}}
+        spec["dataset"]["d1"] = {"megacomplex": ["m1", "m2"], "initial_concentration": "j"}
+        pl += [["k4", 0.011], ["j1", 1.0, {"vary": False}], ["j0", 0.0, {"vary": False}], ["j3", 0.6, {"vary": False}]]
     elif kind == "multi_group":
         # several dataset groups: the objective is the concatenation of the group penalties in a fixed order
         t = np.linspace(0.0, 30.0, 150)
